@@ -186,8 +186,9 @@ def run(ctx, report):
             todo.append((f"91.{vname}", vcls, ref, vcls.where))
         _check_91(ctx, report, r_tab, r91)
 
-    for m, cls, ref, where in todo:
-        _check_method(ctx, report, r_tab, r_dig, m, cls, ref, where)
+    from ..par import replay, run_recorded
+    for recs, _ in run_recorded(["R07-table", "R07-digit"], lambda t, rules: _check_method(ctx, report, rules["R07-table"], rules["R07-digit"], *t), todo):
+        replay({"R07-table": r_tab, "R07-digit": r_dig}, recs)
 
     if "09" in by_name:
         k = by_name["09"].cls
@@ -201,13 +202,13 @@ def run(ctx, report):
     from ..algo_eval import Evaluator
     r_ref = report.rule("R07-reference", floor=39, what="validate() agrees with the reference verdict on a probe family covering every position x digit, the special-rule boundaries and seeded fills")
     ev = Evaluator(facts)
-    n_random = 400 if ctx.tier == "thorough" else 8
-    total = 0
-    for m, r in sorted(by_name.items()):
-        if m not in BB.ALL_METHODS:
-            continue
+    n_random = 1500 if ctx.tier == "thorough" else 60
+    def ref_body(mr, rules):
+        r_ref = rules["R07-reference"]
+        m, r = mr
+        total = 0
         boundary, rest = REF.probes(m, ctx.seed, n_random=n_random)
-        ps = boundary + (rest if ctx.tier == "thorough" else rest[::2])
+        ps = boundary + rest
         bad = None
         for a, want in ps:
             got = ev.call(r.cls, "validate", [[a], ""])
@@ -221,6 +222,12 @@ def run(ctx, report):
             shown = "accepted" if bad[2] is True else ("rejected" if bad[2] is False else f"raises {bad[2]}")
             r_ref.finding(f"DE:{m}.verdict", f"method {m}: account {bad[0]} is {shown}; the reference for the method says "
                           f"{'valid' if bad[1] else 'invalid'}", r.where, witness=bad[0])
+        return total
+
+    total = 0
+    for recs, n_ in run_recorded(["R07-reference"], ref_body, [(m, r) for m, r in sorted(by_name.items()) if m in BB.ALL_METHODS]):
+        replay({"R07-reference": r_ref}, recs)
+        total += n_
     report.analysed["reference_probes"] = total
 
     # the verdict depends on nothing but method and account number: no method writes into shared class-level objects
@@ -233,7 +240,8 @@ def run(ctx, report):
                            where_)
 
     report.not_decided += [
-        "full semantics of the variant rules of methods 13/63 (sub-account fallback), 24, 25, 68, 76 beyond their parameters and hook tables",
+        "the special rules of methods 08, 16, 23, 24, 25, 26, 61, 63, 68, 76, 88, 91, 99 outside the probe family of R07-reference (every position x digit made reference-valid, the rule boundaries, seeded fills); "
+        "the template part (parameters and hook tables) is decided for all inputs",
         "that the reference table equals the current Bundesbank publication (typed from it; it cannot be re-read in the sandbox)",
     ]
     report.trusted.append("sv/tables/bundesbank.py (reference parameters)")
